@@ -268,9 +268,9 @@ func c04MergeBody(entries, depth int) {
 // VerifC04Identities: a * {} = a, {} * a = a, a * a = a; three-document fold = left fold.
 func VerifC04Identities() {
 	a := c04Map("a", verifParam("entries", 2), verifParam("depth", 1))
-	which := verifChoice("identity", 4)
-	doc := vDoc(vMap(vStr("a"), c04Yaml(a), vStr("e"), vMap()))
-	names := []string{"a*{}", "{}*a", "a*a", "fold"}
+	which := verifChoice("identity", 6)
+	doc := vDoc(vMap(vStr("a"), c04Yaml(a), vStr("e"), vMap(), vStr("nul"), vNull()))
+	names := []string{"a*{}", "{}*a", "a*a", "fold", "a*null", "null*a"}
 	var text string
 	switch which {
 	case 0:
@@ -281,6 +281,10 @@ func VerifC04Identities() {
 		text = ".a * .a"
 	case 3:
 		text = "[.e, .a, .a] | .[] as $i ireduce ({}; . * $i)"
+	case 4:
+		text = ".a * .nul"
+	case 5:
+		text = ".nul * .a"
 	}
 	res, err := vEval(vParse(text), doc)
 	verifAssert(err == nil && res.Len() == 1, "C04/identity-error "+names[which])
@@ -291,6 +295,16 @@ func VerifC04Identities() {
 	verifObserve("got", got)
 	verifAssert(verifEqStr(got, c04Dump(a)), "C04/identity "+names[which])
 	verifAssert(verifEqStr(vDump(doc.Content[1]), c04Dump(a)), "C04/identity-operand-changed "+names[which])
+	// the result is a value of its own: it shares no node with the document, so editing it cannot change an operand
+	shared := false
+	for _, rn := range vAllNodes(res.Front().Value.(*CandidateNode)) {
+		for _, on := range vAllNodes(doc) {
+			if rn == on {
+				shared = true
+			}
+		}
+	}
+	verifAssert(!shared, "C04/identity-result-aliases-operand "+names[which])
 	verifCover("C04/identities/end")
 }
 
